@@ -433,6 +433,8 @@ fn run_transport(
                             }
                         }
                     }
+                    #[cfg(metrics_verif)]
+                    metrics::verif::point("tcp.rx.end.post", &[buffered_pmsgs.len() as i64]);
                     drop(_mrxspan);
 
                     if buffered_pmsgs.is_empty() {
